@@ -462,7 +462,7 @@ F('c03-double-unquote', {'C03': ['R03.1']}, [(PPATH, "unquote(line[len('Path='):
   "unquote(unquote(line[len('Path='):]))")], 'reader decodes twice')
 F('c03-reader-format', {'C03': ['R03.3']}, [(PINFO, '"DeletionDate=%Y-%m-%dT%H:%M:%S"',
   '"DeletionDate=%Y-%m-%d %H:%M:%S"')], 'reader parses another date format')
-F('c03-last-path-wins', {'C03': ['R03.3'], 'C20': ['R20.4']}, [(PPATH,
+F('c03-last-path-wins', {'C03': ['R03.3']}, [(PPATH,
   "    for line in contents.split('\\n'):\n        if line.startswith('Path='):\n            return unquote(line[len('Path='):])\n    raise ParseError('Unable to parse Path')",
   "    found = None\n    for line in contents.split('\\n'):\n        if line.startswith('Path='):\n            found = unquote(line[len('Path='):])\n    if found is None:\n        raise ParseError('Unable to parse Path')\n    return found")],
   'last Path= line wins')
@@ -569,3 +569,48 @@ S('c13-sorted-copy', ['C13', 'C02'], [(SORTM,
   "        return sorted(trashed_files, key=self.sort_func)",
   "        result = list(trashed_files)\n        result.sort(key=self.sort_func)\n        return result")],
   'list.sort on a copy')
+
+# ------------------------------------------------------------------ C20 / C09
+LISTACT = 'trashcli/list/list_trash_action.py'
+RMLIST = 'trashcli/rm/list_trashinfo.py'
+TDR = 'trashcli/lib/trash_dir_reader.py'
+F('c20-rm-joins-dirname', {'C20': ['R20.3']}, [(RMLIST,
+  "                complete_path = os.path.join(volume, path)",
+  "                complete_path = os.path.join(os.path.dirname(trashdir_path), path)")],
+  'trash-rm resolves relative Paths against the parent of the trash directory')
+F('c20-list-no-unquote', {'C20': ['R20.1', 'R20.2'], 'C03': ['R03.1'], 'C09': ['R09.2']}, [(LISTACT,
+  "                relative_location = parse_path(contents)",
+  "                relative_location = [l[5:] for l in contents.split('\\n') if l.startswith('Path=')][0]")],
+  'trash-list prints the raw (still escaped) Path')
+F('c20-private-parser-in-rm', {'C20': ['R20.1']}, [(RMLIST,
+  "                path = parse_path(trashinfo)",
+  "                from six.moves.urllib.parse import unquote\n                path = unquote([l for l in trashinfo.split('\\n') if l.startswith('Path=')][-1][len('Path='):])")],
+  'trash-rm has its own Path parser (last line wins)')
+F('c20-empty-own-date-parser', {'C20': ['R20.1']}, [('trashcli/empty/delete_according_date.py',
+  "            deletion_date = parse_deletion_date(contents)",
+  "            import datetime\n            deletion_date = None\n            for line in contents.split('\\n'):\n                if line.startswith('DeletionDate='):\n                    try:\n                        deletion_date = datetime.datetime.strptime(line, 'DeletionDate=%Y-%m-%dT%H:%M:%S')\n                    except ValueError:\n                        pass")],
+  'trash-empty parses dates on its own (last line wins)')
+F('c20-scanner-volume-of-top', {'C20': ['R20.3']}, [('trashcli/trash_dirs_scanner.py',
+  "                    yield trash_dir_found, TrashDir(top_trash_dir_path, volume)",
+  "                    yield trash_dir_found, TrashDir(top_trash_dir_path, '/')")],
+  'scanner pairs $topdir/.Trash/$uid with "/"')
+F('c09-suffix-info', {'C09': ['R09.1']}, [(TDR, "            if entry.endswith('.trashinfo'):", "            if entry.endswith('.info'):")],
+  'readers look for *.info')
+F('c09-files-dir-renamed', {'C09': ['R09.1'], 'C11': ['R11.2'], 'C15': ['R15.2']}, [('trashcli/lib/path_of_backup_copy.py',
+  "return os.path.join(trash_dir, 'files', basename)", "return os.path.join(trash_dir, 'file', basename)")],
+  'payload directory spelled "file"')
+F('c09-list-filters-by-date', {'C09': ['R09.2']}, [(LISTACT,
+  "                attribute = extractor.extract_attribute(trashinfo_path,\n                                                        contents)\n",
+  "                attribute = extractor.extract_attribute(trashinfo_path,\n                                                        contents)\n                from trashcli.parse_trashinfo.parse_deletion_date import parse_deletion_date\n                if parse_deletion_date(contents) is None:\n                    return\n")],
+  'trash-list hides undated entries')
+F('c09-rm-only-info', {'C09': ['R09.3'], 'C15': ['R15.3']}, [(RM_CAN,
+  "        self._file_remover.remove_file_if_exists(backup_copy)\n", "")],
+  'trash-rm deletes only the .trashinfo')
+F('c09-rm-own-scanner', {'C09': ['R09.4']}, [('trashcli/rm/rm_cmd.py',
+  "        for event, args in scanner.scan_trash_dirs(self.environ, uid):",
+  "        import os\n        from trashcli.trash_dirs_scanner import TrashDir\n        mine = [(trash_dir_found, TrashDir(os.path.join(v, '.Trash-%s' % uid), v)) for v in self.volumes_listing.list_volumes(self.environ)]\n        for event, args in mine:")],
+  'trash-rm enumerates trash directories on its own')
+S('c09-constants-hoisted', ['C09', 'C11', 'C15'], [(TDR,
+  "        info_dir = os.path.join(path, 'info')\n        for entry in self.dir_reader.entries_if_dir_exists(info_dir):\n            if entry.endswith('.trashinfo'):",
+  "        INFO = 'info'\n        SUFFIX = '.trashinfo'\n        info_dir = os.path.join(path, INFO)\n        for entry in self.dir_reader.entries_if_dir_exists(info_dir):\n            if entry.endswith(SUFFIX):")],
+  'layout constants through locals')
